@@ -89,9 +89,12 @@ RestBad == IF ~StartOnMatch THEN "matching_object_without_live_instance"
 
 TStep == TEdit \/ TDelete \/ TForce \/ TDeliver \/ TBegin \/ TEnd \/ TMerge \/ TJson \/ TEnter \/ TSeen \/ TCancel \/ TExit \/ TTick
          \/ TStop \/ TClosed \/ TDown \/ TQuiet \/ Silent \/ Advance
+\* ... and when the exit begins: instances whose memory was forgotten with the vanished object are still there (F5)
+Orphans == ~obj.exists /\ chan = <<>> /\ bl = <<>> /\ pc = "idle" /\ \E h \in Hs : run[h].on /\ ~run[h].vis
 TNext == /\ TStep /\ conf' = conf
          /\ bad' = (IF bad # "none" THEN bad ELSE IF FirstBad' # "none" THEN FirstBad'
-                    ELSE IF l <= Len(T) /\ E.ev = "quiet" /\ l' = l + 1 THEN RestBad ELSE "none")
+                    ELSE IF l <= Len(T) /\ E.ev = "quiet" /\ l' = l + 1 THEN RestBad
+                    ELSE IF l <= Len(T) /\ E.ev = "stop" /\ l' = l + 1 /\ Orphans THEN "F5" ELSE "none")
 TSpec == TInit /\ [][TNext]_tvars
 
 Max2(a, b) == IF a >= b THEN a ELSE b
